@@ -286,3 +286,12 @@ def q3(ctx):
 
 
 RULES = [q1, q2, q3]
+
+
+@rule("Q1w", doc="compile-fail witnesses: a SlotMap cannot be built from a raw vector and no API hands out &mut keys", thorough_only=True, once=True)
+def q1w(ctx):
+    from salib import witness
+    witness.check(ctx, ['c19_slotmap_literal', 'c19_slotmap_keys_mut'])
+
+
+RULES.append(q1w)
